@@ -13,6 +13,18 @@ and an optional reconnection phase (same roles, swapped roles). The virtual cont
 the peripheral host for a key, so the harness emulates the LE Long Term Key Request for every
 LE Enable Encryption command of the central and compares the two keys.
 
+Part 2 also holds three families beyond the single pairing on a fresh link:
+  again  - a second pairing of the same two devices, judged by the same oracle: on the same link after the
+           first pairing failed (retry) or completed (re-pairing, e.g. to raise the security level), or on a
+           new link after a disconnection, in the same or in swapped roles (connection handle re-used, real
+           bond of the first pairing in both stores); then the reconnection phase on the bond that must be
+           in the stores (the second one if it completed, the first one if the second failed);
+  oob    - OOB association end to end (SC: data about the peer on both sides / one side / foreign data;
+           legacy: equal or different TKs), so that the "authenticated iff MITM-protected model" and
+           "mismatching confirm value never yields keys" clauses are judged for OOB as well;
+  pkbit  - passkey entry with a typed passkey that differs from the right one in exactly one bit
+           (bit 0..19 x {legacy, SC} x the three role assignments), enumerated.
+
 Harness trust base: TABLE_2_8/reference_method (own transcription of the specification), the
 UserDelegate user model, FaultFilter, LtkEmulation and the encryption-start hold in front of Tap._forward.
 """
@@ -49,7 +61,17 @@ RULE = (
     'of one byte of one Confirm/Random/DHKey-check/Public-key PDU, optional pre-existing bond, optional '
     'reconnection in the same and in swapped roles. non-trivial = the two configurations differ in '
     'IO/sc/mitm/bonding/masks, or an answer is negative/wrong, or a PDU was corrupted, or a reconnection '
-    'phase ran; distinct by (configurations, start, answers, fault, prebond, reconnect).'
+    'phase ran; distinct by (configurations, start, answers, fault, prebond, reconnect). '
+    'again: two pairings of the same two devices - the first aimed at failing (responder rejects / negative '
+    'answers / one corrupted PDU) or at completing - and the second one on the same link, or after a '
+    'disconnection on a new link in the same or in swapped roles; every device keeps its IO capability, '
+    'sc/mitm/key-distribution masks may change in between; answers of the second pairing positive, negative or '
+    'a rejection; both pairings and the final reconnection phase are judged; always non-trivial; distinct by '
+    'both rounds. oob: at least one side has an OOB configuration (own context only / valid data of the peer / '
+    'data of a foreign device; legacy TK equal or different) x sc on each side x everything of a pair case. '
+    'pkbit: passkey entry where one typist enters the passkey with exactly bit k flipped, k = 0..19 x '
+    '{legacy, SC} x roles {initiator displays, responder displays, both type}; quick: every third cell, '
+    'thorough: all 120 in every shard.'
 )
 ASSUMPTIONS = [
     '"never hangs" is decided as: pair() finishes without the virtual loop stalling and within '
@@ -66,8 +88,20 @@ ASSUMPTIONS = [
     'link address is the lookup by identity',
     'which LTK is the right one for a role is not decided; only that central and peripheral select the same '
     'key for the same request',
-    'only the LE central initiates pairing; OOB association is covered in the table part only; '
-    'CTKD/BR-EDR pairing is out of scope',
+    'only the LE central initiates pairing; CTKD/BR-EDR pairing is out of scope',
+    'OOB end to end: every side with an OOB configuration has an own SC context and a legacy TK (well-formed '
+    'PairingConfig.OobConfig); valid data about a peer exists only if that peer has a context; "foreign data" '
+    'is the shared data of a third context. How an OOB configuration maps to the OOB data flag is read from '
+    'the wire (the generator\'s expectation is only a floor). A legacy pairing in which Table 2.6 does not '
+    'select OOB although a side has a TK configured may end either way (the statement is silent about a TK '
+    'that has no use; Bumble keeps it as the Just Works TK); the two sides must still agree',
+    'a second pairing on a link is started only after the first one has ended on both sides (30 virtual '
+    'seconds of settling); the two devices use bonding and the static random address as identity in both '
+    'rounds, so that the store entry of the first bonding is the one the second bonding replaces; a second '
+    'bonding may store an entry equal to the one it replaces (nothing distributed either time), so "the store '
+    'has a new entry" is then decided by the entry object having been written',
+    'a failed second pairing must leave the bond of the first one usable: the reconnection phase then runs on '
+    'the first bonding',
     'nonces, passkeys and ECC keys come from a per-case DRBG (secrets.token_bytes/randbelow, '
     'EccKey.generate and the random module are patched inside the harness process), so replays are exact',
 ]
@@ -402,6 +436,8 @@ class UserDelegate(PairingDelegate):
             value = None
         elif how == 'wrong':
             value = (base + 1) % 1000000
+        elif how.startswith('flip'):
+            value = base ^ (1 << int(how[4:]))  # differs from the displayed passkey in exactly one bit
         else:
             value = base
         self.asked.append(('input', value))
@@ -598,15 +634,34 @@ def _site(exc) -> str:
     return site
 
 
+ROUND_KEYS = ('c', 'p', 'start', 'ans_c', 'ans_p', 'pk', 'fault')
+OOB_SIDE_STATES = ('none', 'own', 'peer', 'bad')  # no OOB config / own context only / peer's data / foreign data
+BETWEEN = ('same_link', 'reconnect_same', 'reconnect_swapped')
+
+
+def _norm_round(r) -> dict:
+    out = {k: r[k] for k in ROUND_KEYS}
+    out['c'] = dict(r['c'])
+    out['p'] = dict(r['p'])
+    out['ans_c'] = dict(r['ans_c'])
+    out['ans_p'] = dict(r['ans_p'])
+    out['fault'] = list(r['fault']) if r.get('fault') else None
+    if r.get('oob'):
+        out['oob'] = dict(r['oob'])
+    return out
+
+
 def norm_case(case) -> dict:
-    c = {k: case[k] for k in ('c', 'p', 'start', 'ans_c', 'ans_p', 'pk', 'fault', 'prebond', 'reconnect', 'seed')}
-    c['c'] = dict(case['c'])
-    c['p'] = dict(case['p'])
-    c['ans_c'] = dict(case['ans_c'])
-    c['ans_p'] = dict(case['ans_p'])
-    c['fault'] = list(case['fault']) if case.get('fault') else None
+    c = _norm_round(case)
+    for k in ('prebond', 'reconnect', 'seed'):
+        c[k] = case[k]
     c['delays_c'] = list(case.get('delays_c') or [])
     c['delays_p'] = list(case.get('delays_p') or [])
+    if case.get('again'):
+        c['again'] = _norm_round(case['again'])
+        c['again']['between'] = case['again']['between']
+        if c['again']['between'] not in BETWEEN:
+            raise ValueError(c['again']['between'])
     c['kind'] = 'pair'
     return c
 
@@ -621,21 +676,29 @@ def run_pair_case(ctx, case, digest_out=None) -> None:
             loop.shutdown()
 
 
-def _run_pair_case(ctx, case, loop, digest_out) -> None:
-    cfg = {'c': case['c'], 'p': case['p']}
-    ans = {'c': case['ans_c'], 'p': case['ans_p']}
-    labels = set()
+def config_reference(cfg_c, cfg_p, oob):
+    """(method, passkey roles, sc) the two configurations lead to (Tables 2.6-2.8); for the OOB data
+    flags: a legacy-only side sets its flag whenever it has an OOB configuration, an SC side when it
+    holds data of the peer (how PairingConfig.OobConfig is read by Session.__init__)."""
+    sc = cfg_c['sc'] and cfg_p['sc']
+
+    def flag(side, cfg):
+        state = oob[side] if oob else 'none'
+        if state == 'none':
+            return False
+        return (not cfg['sc']) or state in ('peer', 'bad')
+
+    fi, fr = flag('c', cfg_c), flag('p', cfg_p)
+    if (fi or fr) if sc else (fi and fr):
+        return OOB, None, sc
+    if not cfg_c['mitm'] and not cfg_p['mitm']:
+        return JW, None, sc
+    method, roles = TABLE_2_8[cfg_p['io']][cfg_c['io']][1 if sc else 0]
+    return method, roles, sc
+
+
+def _setup_world(case, loop) -> dict:
     st_: dict = {}
-
-    def fail(sig, what):
-        ctx.fail(sig, what, case)
-
-    # -- reference for this configuration (from the configuration; re-derived from the wire below)
-    sc_cfg = cfg['c']['sc'] and cfg['p']['sc']
-    if not cfg['c']['mitm'] and not cfg['p']['mitm']:
-        ref_method, ref_roles = JW, None
-    else:
-        ref_method, ref_roles = TABLE_2_8[cfg['p']['io']][cfg['c']['io']][1 if sc_cfg else 0]
 
     async def setup():
         w = world.World(2, delays=[case['delays_c'], case['delays_p']])
@@ -643,37 +706,159 @@ def _run_pair_case(ctx, case, loop, digest_out) -> None:
             add_encryption_hold(n.tap)
         await w.power_on()
         conn_c, conn_p = await w.connect_le(0, 1)
-        shared = {
-            'pk': case['pk'], 'both_input': ref_roles == 'both_input',
-            'displayed': {'c': loop.create_future(), 'p': loop.create_future()},
-        }
-        delegates = {}
-        for side, node in (('c', w[0]), ('p', w[1])):
-            d = UserDelegate(side, cfg[side], ans[side], shared)
-            delegates[side] = d
-            config = PairingConfig(
-                sc=cfg[side]['sc'], mitm=cfg[side]['mitm'], bonding=cfg[side]['bond'], delegate=d,
-                identity_address_type=(None if cfg[side]['id'] is None else PairingConfig.AddressType(cfg[side]['id'])),
-            )
-            node.device.pairing_config_factory = lambda connection, config=config: config
         if not all(hasattr(n.device.keystore, 'all_keys') for n in w.nodes):
             raise HarnessError('devices do not use an in-memory key store')
-        st_.update(w=w, conn={'c': conn_c, 'p': conn_p}, delegates=delegates, shared=shared)
+        st_.update(w=w, conn={'c': conn_c, 'p': conn_p})
 
     try:
         loop.complete(setup(), 120)
     except (vloop.Stalled, vloop.HorizonExceeded, vloop.BudgetExceeded) as e:
         raise HarnessError(f'C13 set-up (power on + LE connection) did not finish: {type(e).__name__}')
-    w = st_['w']
-    node = {'c': w[0], 'p': w[1]}
-    conn = st_['conn']
-    delegates = st_['delegates']
-    link_addr = {'c': conn['p'].peer_address, 'p': conn['c'].peer_address}  # address of each side on the link
-    if conn['c'].is_encrypted or conn['p'].is_encrypted:
+    if st_['conn']['c'].is_encrypted or st_['conn']['p'].is_encrypted:
         raise HarnessError('fresh connection is already encrypted')
+    return {'w': st_['w'], 'idx': {'c': 0, 'p': 1}, 'conn': st_['conn']}
+
+
+def _run_pair_case(ctx, case, loop, digest_out) -> None:
+    labels: set = set()
+    env = _setup_world(case, loop)
+    w = env['w']
+
+    r1 = _pair_round(ctx, case, loop, env, case, '', labels, first=True)
+    basis, tag = r1, ''
+    rounds = [r1]
+    again = case.get('again')
+    if again:
+        between = again['between']
+        tag = f'again/{between}/'
+        labels.add('again')
+        labels.add(f'again:{between}')
+        after = 'paired' if r1['paired'] else ('failed' if r1['failed'] else 'other')
+        labels.add(f'again:after_{after}')
+        labels.add(f'again:{between}:after_{after}')
+        proceed = r1['hang'] is None
+        if proceed and between != 'same_link':
+            ci, pi = (0, 1) if between == 'reconnect_same' else (1, 0)
+            r = _drop_and_connect(loop, w, env['conn'], ci, pi)
+            if r.get('harness'):
+                raise HarnessError(f'C13 second pairing, {between}: {r["harness"]}')
+            env = {'w': w, 'idx': {'c': ci, 'p': pi}, 'conn': r['conn']}
+            if env['conn']['c'].is_encrypted or env['conn']['p'].is_encrypted:
+                raise HarnessError('fresh connection is already encrypted')
+        if proceed:
+            sub: set = set()
+            r2 = _pair_round(ctx, case, loop, env, again, tag, sub, first=False)
+            rounds.append(r2)
+            for lab in sub:
+                if lab.startswith(('method:', 'outcome:', 'cause:', 'expect:', 'start:')):
+                    labels.add('again:' + lab)
+            if r2['paired']:
+                basis = r2
+                if r1['paired']:
+                    labels.add('again:paired_over_bond')
+            elif r2['failed'] and r1['paired']:
+                labels.add('again:failed_over_bond')  # the first bond must have survived: judged below
+            elif not r2['failed']:
+                basis = None  # hang or disagreement already reported; the stores are not judged further
+
+    # -- reconnection: the stored keys of the last completed bonding must select one key on both sides
+    reconnected = False
+    if basis is not None and basis['paired'] and basis['bonded'] and case['reconnect'] and len(basis['entry']) == 2:
+        reconnected = True
+        env = _reconnect_phase(ctx, case, loop, env, basis, tag, labels)
+
+    r_last = rounds[-1]
+    asymmetric = any(any(r['cfg']['c'][k] != r['cfg']['p'][k] for k in ('io', 'sc', 'mitm', 'bond', 'ikd', 'rkd'))
+                     for r in rounds)
+    if asymmetric:
+        labels.add('asymmetric')
+    negative = any(bool(r['causes']) for r in rounds)
+    nontrivial = asymmetric or negative or reconnected or len(rounds) > 1
+    fp = ['pair', sorted(case['c'].items(), key=str), sorted(case['p'].items(), key=str), case['start'],
+          sorted(case['ans_c'].items()), sorted(case['ans_p'].items()), case['fault'], case['prebond'],
+          case['reconnect']]
+    if case.get('oob'):
+        fp.append(sorted(case['oob'].items()))
+    if again:
+        fp.append([again['between'], sorted(again['c'].items(), key=str), sorted(again['p'].items(), key=str),
+                   again['start'], sorted(again['ans_c'].items()), sorted(again['ans_p'].items()), again['fault'],
+                   sorted((again.get('oob') or {}).items())])
+    if digest_out is not None:
+        h = hashlib.blake2b(digest_size=16)
+        for n in w.nodes:
+            for _t, d, pkt in n.tap.log:
+                h.update(d.encode() + pkt)
+        digest_out.append(h.hexdigest())
+    sample = {
+        'central': r1['cfg']['c'], 'peripheral': r1['cfg']['p'], 'start': case['start'], 'method': r1['method'],
+        'outcome': r1['out'], 'causes': r1['causes'], 'fault': case['fault'], 'reconnect': reconnected,
+    }
+    if case.get('oob'):
+        sample['oob'] = case['oob']
+    if again:
+        sample['again'] = {'between': again['between'], 'central': r_last['cfg']['c'],
+                           'peripheral': r_last['cfg']['p'], 'method': r_last['method'],
+                           'outcome': r_last['out'], 'causes': r_last['causes']}
+    ctx.case(tuple(fp), nontrivial, labels, sample=sample)
+
+
+def _pair_round(ctx, case, loop, env, rnd, tag, labels, first) -> dict:
+    """One pairing between the central and the peripheral of env['conn'], judged against the property.
+
+    rnd holds the inputs of this pairing (configurations per role, answers, start, fault, OOB state);
+    tag prefixes the signatures of a second pairing ('again/<between>/'). Returns what later phases need.
+    """
+    cfg = {'c': rnd['c'], 'p': rnd['p']}
+    ans = {'c': rnd['ans_c'], 'p': rnd['ans_p']}
+    oob = rnd.get('oob')
+    w = env['w']
+    node = {'c': w[env['idx']['c']], 'p': w[env['idx']['p']]}
+    conn = env['conn']
+
+    def fail(sig, what):
+        ctx.fail(tag + sig, what, case)
+
+    # -- reference for this configuration (from the configuration; re-derived from the wire below)
+    ref_method, ref_roles, sc_cfg = config_reference(cfg['c'], cfg['p'], oob)
+
+    # -- OOB material of this pairing (own contexts, what each side holds about the other)
+    oob_config = {'c': None, 'p': None}
+    if oob:
+        contexts = {s: smp.OobContext() for s in 'cp'}
+        foreign = smp.OobContext()
+        tk_c = smp.OobLegacyContext()
+        tks = {'c': tk_c, 'p': tk_c if oob['tk'] == 'same' else smp.OobLegacyContext()}
+        for s, o in (('c', 'p'), ('p', 'c')):
+            if oob[s] == 'none':
+                continue
+            peer_data = None
+            if oob[s] == 'peer':
+                peer_data = contexts[o].share()
+            elif oob[s] == 'bad':
+                peer_data = foreign.share()
+            oob_config[s] = PairingConfig.OobConfig(
+                our_context=contexts[s], peer_data=peer_data, legacy_context=tks[s]
+            )
+        labels.add('oob')
+
+    shared = {
+        'pk': rnd['pk'], 'both_input': ref_roles == 'both_input',
+        'displayed': {'c': loop.create_future(), 'p': loop.create_future()},
+    }
+    delegates = {}
+    for side in 'cp':
+        d = UserDelegate(side, cfg[side], ans[side], shared)
+        delegates[side] = d
+        config = PairingConfig(
+            sc=cfg[side]['sc'], mitm=cfg[side]['mitm'], bonding=cfg[side]['bond'], delegate=d,
+            identity_address_type=(None if cfg[side]['id'] is None else PairingConfig.AddressType(cfg[side]['id'])),
+            oob=oob_config[side],
+        )
+        node[side].device.pairing_config_factory = lambda connection, config=config: config
+    link_addr = {'c': conn['p'].peer_address, 'p': conn['c'].peer_address}  # address of each side on the link
 
     # -- pre-existing bond (synthetic), under both addresses the peer could be known by
-    if case['prebond']:
+    if first and case['prebond']:
         for side, other in (('c', 'p'), ('p', 'c')):
             for j, addr in enumerate((link_addr[other], node[other].controller.public_address)):
                 if isinstance(addr, str):
@@ -683,23 +868,29 @@ def _run_pair_case(ctx, case, loop, digest_out) -> None:
                 )
         labels.add('prebond')
     before = {s: snapshot_store(node[s].device) for s in 'cp'}
+    before_obj = {s: dict(node[s].device.keystore.all_keys) for s in 'cp'}
 
     # -- observers
     events = {'c': [], 'p': []}
+    listeners = []
     for s in 'cp':
-        conn[s].on('pairing', lambda keys, s=s: events[s].append(('pairing', keys)))
-        conn[s].on('pairing_failure', lambda reason, s=s: events[s].append(('failure', int(reason))))
+        on_pairing = lambda keys, s=s: events[s].append(('pairing', keys))  # noqa: E731
+        on_failure = lambda reason, s=s: events[s].append(('failure', int(reason)))  # noqa: E731
+        conn[s].on('pairing', on_pairing)
+        conn[s].on('pairing_failure', on_failure)
+        listeners.append((conn[s], 'pairing', on_pairing))
+        listeners.append((conn[s], 'pairing_failure', on_failure))
     emu = LtkEmulation(node['c'], node['p'], conn['p'].handle)
     fault = None
-    if case['fault']:
-        sender, code_name, nth, index, mask = case['fault']
+    if rnd['fault']:
+        sender, code_name, nth, index, mask = rnd['fault']
         fault = FaultFilter(FAULT_CODES[code_name], nth, index, mask)
         node[sender].tap.filters.append(fault)
     marks = {s: len(node[s].tap.log) for s in 'cp'}
     result: dict = {}
 
     async def pair_phase():
-        if case['start'] == 'secreq':
+        if rnd['start'] == 'secreq':
             fut = loop.create_future()
             conn['c'].once('security_request', lambda auth_req: fut.done() or fut.set_result(auth_req))
             node['p'].device.request_pairing(conn['p'])
@@ -713,6 +904,7 @@ def _run_pair_case(ctx, case, loop, digest_out) -> None:
             result['pair'] = ('raised', type(e).__name__, str(e)[:100])
 
     hang = None
+    n_errors = len(loop.errors)
     try:
         loop.complete(pair_phase(), H_PAIR)
     except vloop.Stalled:
@@ -726,8 +918,10 @@ def _run_pair_case(ctx, case, loop, digest_out) -> None:
             loop.complete(asyncio.sleep(SETTLE), SETTLE * 4)
         except (vloop.Stalled, vloop.HorizonExceeded, vloop.BudgetExceeded):
             pass
-    if fault is not None and fault in node[case['fault'][0]].tap.filters:
-        node[case['fault'][0]].tap.filters.remove(fault)
+    if fault is not None and fault in node[rnd['fault'][0]].tap.filters:
+        node[rnd['fault'][0]].tap.filters.remove(fault)
+    for emitter, name, fn in listeners:
+        emitter.remove_listener(name, fn)
 
     # -- what crossed the wire
     pdus = {s: [p for _i, p in smp_pdus(node[s].tap, marks[s])] for s in 'cp'}
@@ -737,16 +931,23 @@ def _run_pair_case(ctx, case, loop, digest_out) -> None:
     if preq is not None and pres is not None and len(preq) == 7 and len(pres) == 7:
         method, roles, sc = reference_method(preq, pres)
         if (method, roles, sc) != (ref_method, ref_roles, sc_cfg):
-            fail('negotiation/wire_differs_from_configuration',
-                 f'request/response on the wire ({preq.hex()} / {pres.hex()}) give {method}/{roles}/sc={sc}; the '
-                 f'configurations give {ref_method}/{ref_roles}/sc={sc_cfg}')
+            if oob:
+                # how an OOB configuration maps to the OOB data flag is not the property's business:
+                # the wire decides; the floor on 'oob:flags_as_configured' keeps the generator honest
+                labels.add('oob:flags_differ_from_configuration')
+            else:
+                fail('negotiation/wire_differs_from_configuration',
+                     f'request/response on the wire ({preq.hex()} / {pres.hex()}) give {method}/{roles}/sc={sc}; the '
+                     f'configurations give {ref_method}/{ref_roles}/sc={sc_cfg}')
+        elif oob:
+            labels.add('oob:flags_as_configured')
     started = preq is not None and pres is not None
     labels.add(f'io:{cfg["c"]["io"]}x{cfg["p"]["io"]}:{"sc" if sc_cfg else "legacy"}')
     labels.add(f'method:{ref_method}')
-    labels.add(f'start:{case["start"]}')
-    if case['reconnect']:
+    labels.add(f'start:{rnd["start"]}')
+    if first and case['reconnect']:
         labels.add('reconnect_requested')
-    if case['delays_c'] and any(case['delays_c']) or case['delays_p'] and any(case['delays_p']):
+    if first and (case['delays_c'] and any(case['delays_c']) or case['delays_p'] and any(case['delays_p'])):
         labels.add('delayed')
 
     # -- causes that oblige the pairing to fail (from what the users were really asked)
@@ -766,8 +967,21 @@ def _run_pair_case(ctx, case, loop, digest_out) -> None:
     displays = [a[1] for s in 'cp' for a in asked[s] if a[0] == 'display']
     if inputs and len(set(inputs + displays)) > 1:
         causes.append('passkey_wrong')
+    if oob and started and method == OOB:
+        # the OOB confirm value / TK each side holds about the other does not match what the other uses
+        if (sc and 'bad' in (oob['c'], oob['p'])) or (not sc and oob['tk'] != 'same'):
+            causes.append('oob_mismatch')
+    # Legacy pairing in which Table 2.6 does not select OOB although a side has an OOB TK configured:
+    # the statement does not say what becomes of a TK that has no use (Bumble keeps it as the Just Works
+    # TK, so two sides with different left-over TKs fail); both endings are accepted, agreement is not.
+    may_fail = False
+    if oob and started and not sc and method != OOB:
+        tk_of = {s: None if oob[s] == 'none' else ('A' if s == 'c' or oob['tk'] == 'same' else 'B') for s in 'cp'}
+        if tk_of['c'] != tk_of['p']:
+            may_fail = True
+            labels.add('oob:legacy_tk_left_over')
     if fault is not None and fault.applied:
-        causes.append(f'corrupt_{case["fault"][1]}')
+        causes.append(f'corrupt_{rnd["fault"][1]}')
         labels.add('cause:corrupt')
     elif fault is not None:
         labels.add('fault_not_applicable')
@@ -788,25 +1002,28 @@ def _run_pair_case(ctx, case, loop, digest_out) -> None:
 
     out = {s: outcome(s) for s in 'cp'}
     err = ''
-    if loop.errors:
-        exc = loop.errors[0].get('exception')
-        err = f'{_site(exc)}:{type(exc).__name__}' if exc is not None else str(loop.errors[0].get('message'))[:60]
+    if len(loop.errors) > n_errors:
+        exc = loop.errors[n_errors].get('exception')
+        err = (f'{_site(exc)}:{type(exc).__name__}' if exc is not None
+               else str(loop.errors[n_errors].get('message'))[:60])
     phase = 'before_response' if not started else ('sc' if sc else 'legacy') + '/' + method
+    # a second pairing is bucketed by its history (the tag), not again by the model it happened to use
+    detail = (err or cause or phase) if first else (err or 'no_exception')
     ok = True
     if hang is not None:
         ok = False
-        fail(f'hang/pair/{err or cause or phase}',
+        fail(f'hang/pair/{detail}',
              f'pair() never finished ({hang}); central: {out["c"]}, peripheral: {out["p"]}; cause: {causes}; '
-             f'first escaped exception: {err or "none"}')
+             f'model: {phase}; first escaped exception: {err or "none"}')
     elif 'both' in out.values() or any(len(events[s]) > 1 for s in 'cp'):
         ok = False
-        fail(f'agreement/several_outcomes_on_one_side/{phase}',
+        fail(f'agreement/several_outcomes_on_one_side/{phase if first else "any"}',
              f'central events {[(e[0]) for e in events["c"]]}, peripheral events {[(e[0]) for e in events["p"]]}')
     elif out['c'] != out['p'] or out['c'] == 'none':
         ok = False
-        fail(f'agreement/central_{out["c"]}_peripheral_{out["p"]}/{err or cause or phase}',
+        fail(f'agreement/central_{out["c"]}_peripheral_{out["p"]}/{detail}',
              f'central reports {out["c"]} (pair(): {result.get("pair")}), peripheral reports {out["p"]}; '
-             f'cause: {causes}; first escaped exception: {err or "none"}')
+             f'cause: {causes}; model: {phase}; first escaped exception: {err or "none"}')
     elif (out['c'] == 'paired') != (result.get('pair') == ('ok',)):
         ok = False
         fail(f'agreement/pair_result_contradicts_event/{out["c"]}',
@@ -822,7 +1039,7 @@ def _run_pair_case(ctx, case, loop, digest_out) -> None:
     if cause and (out['c'] == 'paired' or out['p'] == 'paired'):
         fail(f'must_fail_but_paired/{cause}',
              f'{causes}: central {out["c"]}, peripheral {out["p"]}')
-    if failed and not cause:
+    if failed and not cause and not may_fail:
         fail(f'spurious_failure/{phase}',
              f'every answer was positive and nothing was corrupted, yet both sides report failure '
              f'(reasons {[e[1] for s in "cp" for e in events[s]]}, pair(): {result.get("pair")})')
@@ -832,6 +1049,7 @@ def _run_pair_case(ctx, case, loop, digest_out) -> None:
     if v is not None:
         fail(f'pairing_key/{v[0]}/{"sc" if sc else "legacy"}', f'while pairing ({method}): {v[1]}')
     n_enc_requests = len(emu.requests)
+    last_request_key = emu.requests[-1][0] if emu.requests else None
     emu.detach()
 
     after = {s: snapshot_store(node[s].device) for s in 'cp'}
@@ -931,7 +1149,10 @@ def _run_pair_case(ctx, case, loop, digest_out) -> None:
             name = str(ident)
             keys = node[s].device.keystore.all_keys.get(name)
             who = 'central' if s == 'c' else 'peripheral'
-            if keys is None or after[s].get(name) == before[s].get(name):
+            # (a second bonding may legitimately store an entry equal to the one it replaces, e.g. no key
+            # distributed either time: then only an entry that was not written at all counts)
+            if keys is None or (after[s].get(name) == before[s].get(name)
+                                and (first or keys is before_obj[s].get(name))):
                 fail(f'store/no_entry_under_identity/{who}',
                      f'{who} store has no new entry under {name} (entries: {sorted(after[s])})')
                 continue
@@ -956,43 +1177,8 @@ def _run_pair_case(ctx, case, loop, digest_out) -> None:
             lc, lp = entry['c'].ltk, entry['p'].ltk
             if lc is None or lp is None or lc.value != lp.value:
                 fail('store/sc_ltk_differs', f'central stored {lc}, peripheral stored {lp}')
-            elif emu.requests and emu.requests[-1][0] != lc.value:
+            elif last_request_key is not None and last_request_key != lc.value:
                 fail('store/sc_ltk_not_link_key', 'stored LTK is not the key the link was encrypted with')
-
-    # -- reconnection
-    bonded = cfg['c']['bond'] and cfg['p']['bond']
-    reconnected = False
-    if paired and bonded and case['reconnect'] and len(entry) == 2:
-        reconnected = True
-        enc_same = bool(pres[6] & ENC)  # responder's LTK distributed (legacy)
-        enc_swapped = bool(pres[5] & ENC)  # initiator's LTK distributed (legacy)
-        for arrangement, (ci, pi), has_key in (('same', (0, 1), sc or enc_same), ('swapped', (1, 0), sc or enc_swapped)):
-            r = _reconnect(loop, w, conn, ci, pi)
-            labels.add(f'reconnect:{arrangement}')
-            tag = f'{"sc" if sc else "legacy"}/{arrangement}'
-            if r.get('harness'):
-                raise HarnessError(f'C13 reconnection phase: {r["harness"]}')
-            if r['hang']:
-                fail(f'reconnect/encrypt_hangs/{tag}', f'encrypt() never finished ({r["hang"]})')
-                break
-            v = r['emu'].verdict()
-            if v is not None:
-                fail(f'reconnect/key_mismatch/{tag}',
-                     f'{arrangement} roles after {"SC" if sc else "legacy"} bonding (key distribution '
-                     f'{pres[5]:#x}/{pres[6]:#x}, LTK for this arrangement '
-                     f'{"was" if has_key else "was not"} distributed): {v[1]}')
-            elif not r['emu'].requests:
-                labels.add(f'reconnect:{arrangement}:no_request')
-                if has_key:
-                    fail(f'reconnect/no_key_for_central/{tag}',
-                         f'{arrangement} roles after {"SC" if sc else "legacy"} bonding (key distribution '
-                         f'{pres[5]:#x}/{pres[6]:#x}): the new central cannot encrypt: {r["result"]}')
-            else:
-                labels.add(f'reconnect:{arrangement}:same_key')
-                if not has_key:
-                    labels.add(f'reconnect:{arrangement}:key_without_distribution')
-            conn = r['conn']
-        labels.add('reconnected')
 
     # classes of the generated input (independent of what the stack did): used for the floors
     gen = []
@@ -1007,35 +1193,82 @@ def _run_pair_case(ctx, case, loop, digest_out) -> None:
             gen.append('passkey_none')
         if 'wrong' in typed and typed != ['wrong', 'wrong']:
             gen.append('passkey_wrong')
-    if case['fault']:
+        flips = [t for t in typed if t.startswith('flip')]
+        if flips and not (len(typed) == 2 and typed[0] == typed[1]):
+            gen.append('passkey_one_bit')
+            labels.add(f'pkbit:{"sc" if sc_cfg else "legacy"}:{ref_roles}')
+            if any(int(t[4:]) >= 16 for t in flips):
+                labels.add('pkbit:high')
+    if ref_method == OOB:
+        labels.add(f'oob:{"sc" if sc_cfg else "legacy"}')
+        if sc_cfg and (oob['c'] in ('peer', 'bad')) != (oob['p'] in ('peer', 'bad')):
+            labels.add('oob:sc:one_sided')
+        if (sc_cfg and 'bad' in (oob['c'], oob['p'])) or (not sc_cfg and oob['tk'] != 'same'):
+            gen.append('oob_mismatch')
+    if rnd['fault']:
         gen.append('corrupt')
     for e in gen:
         labels.add(f'expect:{e}')
     if not gen:
         labels.add('expect:success')
 
-    asymmetric = any(cfg['c'][k] != cfg['p'][k] for k in ('io', 'sc', 'mitm', 'bond', 'ikd', 'rkd'))
-    if asymmetric:
-        labels.add('asymmetric')
-    negative = bool(causes)
-    nontrivial = asymmetric or negative or reconnected
-    fp = ('pair', sorted(cfg['c'].items(), key=str), sorted(cfg['p'].items(), key=str), case['start'],
-          sorted(ans['c'].items()), sorted(ans['p'].items()), case['fault'], case['prebond'], case['reconnect'])
-    if digest_out is not None:
-        h = hashlib.blake2b(digest_size=16)
-        for s in 'cp':
-            for _t, d, pkt in node[s].tap.log:
-                h.update(d.encode() + pkt)
-        digest_out.append(h.hexdigest())
-    ctx.case(fp, nontrivial, labels, sample={
-        'central': cfg['c'], 'peripheral': cfg['p'], 'start': case['start'], 'method': method,
-        'outcome': out, 'causes': causes, 'fault': case['fault'], 'reconnect': reconnected,
-    })
+    return {
+        'cfg': cfg, 'paired': paired, 'failed': failed, 'hang': hang, 'out': out, 'causes': causes,
+        'method': method, 'roles': roles, 'sc': sc, 'pres': pres, 'entry': entry,
+        'bonded': cfg['c']['bond'] and cfg['p']['bond'], 'idx': dict(env['idx']),
+    }
 
 
-def _reconnect(loop, w, conn, ci, pi):
-    """Drops the link, reconnects with node ci as central, encrypts; returns what happened."""
-    r: dict = {'hang': None, 'result': None, 'emu': None, 'conn': conn}
+def _reconnect_phase(ctx, case, loop, env, basis, tag, labels) -> dict:
+    """After a completed bonding (basis): drop the link, come back in the same and in swapped roles
+    (relative to the roles of that bonding), let the new central encrypt and compare the two keys."""
+    w = env['w']
+    conn = env['conn']
+    sc, pres = basis['sc'], basis['pres']
+    bc, bp = basis['idx']['c'], basis['idx']['p']
+
+    def fail(sig, what):
+        ctx.fail(tag + sig, what, case)
+
+    enc_same = bool(pres[6] & ENC)  # responder's LTK distributed (legacy)
+    enc_swapped = bool(pres[5] & ENC)  # initiator's LTK distributed (legacy)
+    for arrangement, (ci, pi), has_key in (('same', (bc, bp), sc or enc_same), ('swapped', (bp, bc), sc or enc_swapped)):
+        r = _reconnect(loop, w, conn, ci, pi)
+        labels.add(f'reconnect:{arrangement}')
+        t = f'{"sc" if sc else "legacy"}/{arrangement}'
+        if r.get('harness'):
+            raise HarnessError(f'C13 reconnection phase: {r["harness"]}')
+        if r['hang']:
+            fail(f'reconnect/encrypt_hangs/{t}', f'encrypt() never finished ({r["hang"]})')
+            break
+        v = r['emu'].verdict()
+        if v is not None:
+            fail(f'reconnect/key_mismatch/{t}',
+                 f'{arrangement} roles after {"SC" if sc else "legacy"} bonding (key distribution '
+                 f'{pres[5]:#x}/{pres[6]:#x}, LTK for this arrangement '
+                 f'{"was" if has_key else "was not"} distributed): {v[1]}')
+        elif not r['emu'].requests:
+            labels.add(f'reconnect:{arrangement}:no_request')
+            if has_key:
+                fail(f'reconnect/no_key_for_central/{t}',
+                     f'{arrangement} roles after {"SC" if sc else "legacy"} bonding (key distribution '
+                     f'{pres[5]:#x}/{pres[6]:#x}): the new central cannot encrypt: {r["result"]}')
+        else:
+            labels.add(f'reconnect:{arrangement}:same_key')
+            if not has_key:
+                labels.add(f'reconnect:{arrangement}:key_without_distribution')
+            # observation only (the statement speaks of the keys, not of the link flag after re-encryption):
+            if basis['method'] not in MITM_METHODS and (r['conn']['c'].authenticated or r['conn']['p'].authenticated):
+                labels.add('observed:link_authenticated_after_reencryption_with_unauthenticated_key')
+        conn = r['conn']
+        env = {'w': w, 'idx': {'c': ci, 'p': pi}, 'conn': conn}
+    labels.add('reconnected')
+    return env
+
+
+def _drop_and_connect(loop, w, conn, ci, pi) -> dict:
+    """Drops the link and reconnects with node ci as central."""
+    r: dict = {'conn': conn}
 
     async def drop_and_connect():
         old = conn['c']
@@ -1052,8 +1285,16 @@ def _reconnect(loop, w, conn, ci, pi):
         loop.complete(drop_and_connect(), 300)
     except (vloop.Stalled, vloop.HorizonExceeded, vloop.BudgetExceeded) as e:
         r['harness'] = f'reconnection did not finish ({type(e).__name__})'
-        return r
-    if r.get('harness'):
+    return r
+
+
+def _reconnect(loop, w, conn, ci, pi):
+    """Drops the link, reconnects with node ci as central, encrypts; returns what happened."""
+    r: dict = {'hang': None, 'result': None, 'emu': None, 'conn': conn}
+    d = _drop_and_connect(loop, w, conn, ci, pi)
+    r['conn'] = d['conn']
+    if d.get('harness'):
+        r['harness'] = d['harness']
         return r
     c2, p2 = r['conn']['c'], r['conn']['p']
     emu = LtkEmulation(w[ci], w[pi], p2.handle)
@@ -1167,6 +1408,153 @@ def pair_case_strategy(io_c: int, io_p: int, sc: bool, flavour: str):
     }).map(build)
 
 
+def _fix_fault(fault, c, p):
+    """Aims a drawn fault at a PDU that exists in the pairing of central c / peripheral p."""
+    fault = list(fault)
+    both_sc = c['sc'] and p['sc']
+    if not (c['mitm'] or p['mitm']):
+        method = JW
+    else:
+        method = TABLE_2_8[p['io']][c['io']][1 if both_sc else 0][0]
+    if method != PK or not both_sc:
+        fault[2] = 1  # one Confirm/Random per side outside SC passkey entry
+    if both_sc and method != PK and fault[1] == 'confirm':
+        fault[0] = 'p'  # only the responder commits in SC just works / numeric comparison
+    return fault
+
+
+DEVICE_CFG = st.fixed_dictionaries({
+    'io': st.integers(0, 4), 'sc': st.sampled_from([True, True, False]), 'mitm': st.sampled_from([True, True, False]),
+    'ikd': MASKS, 'rkd': MASKS,
+})
+DEVICE_CHANGE = st.one_of(
+    st.none(),
+    st.fixed_dictionaries({'sc': st.booleans(), 'mitm': st.booleans(), 'ikd': MASKS, 'rkd': MASKS}),
+)
+SECOND_ANSWERS = st.one_of(answers(False), answers(False), answers(False), answers(True))
+
+
+def again_case_strategy(between: str, first: str):
+    """Two pairings of the same two devices: the first one is aimed at failing (first='fail': rejected,
+    negative answers or a corrupted PDU) or at completing (first='ok'); the second one follows on the same
+    link, or after a disconnection on a new link in the same or in swapped roles. Each device keeps its IO
+    capability; sc/mitm/key-distribution masks may change between the two. Bonding on, identity = the
+    static random address (see ASSUMPTIONS), so a completed bonding can be followed over reconnections."""
+
+    def build(d):
+        dev = [dict(d['dev0'], bond=True, id=1), dict(d['dev1'], bond=True, id=1)]
+        dev2 = [dict(dev[i], **(d[f'chg{i}'] or {})) for i in (0, 1)]
+        ci, pi = (1, 0) if between == 'reconnect_swapped' else (0, 1)
+        ans_c, ans_p = dict(d['ans_c']), dict(d['ans_p'])
+        fault = None
+        if first == 'fail':
+            if d['how'] == 'reject':
+                ans_p['accept'] = False
+            elif d['how'] == 'answers':
+                ans_p.update(confirm=False, compare=False, passkey='none')
+                ans_c.update(passkey='wrong')
+            else:
+                fault = _fix_fault(d['fault'], dev[0], dev[1])
+        ans2_c, ans2_p = dict(d['ans2_c']), dict(d['ans2_p'])
+        if d['how2'] == 'reject':
+            ans2_p['accept'] = False
+        elif d['how2'] == 'answers':
+            ans2_p.update(confirm=False, compare=False, passkey='none')
+            ans2_c.update(passkey='wrong')
+        return {
+            'kind': 'pair', 'c': dev[0], 'p': dev[1], 'start': d['start'], 'ans_c': ans_c, 'ans_p': ans_p,
+            'pk': d['pk'], 'delays_c': d['delays_c'], 'delays_p': d['delays_p'], 'fault': fault,
+            'prebond': False, 'reconnect': d['reconnect'], 'seed': d['seed'],
+            'again': {
+                'between': between, 'c': dev2[ci], 'p': dev2[pi], 'start': d['start2'],
+                'ans_c': ans2_c, 'ans_p': ans2_p, 'pk': d['pk2'], 'fault': None,
+            },
+        }
+
+    return st.fixed_dictionaries({
+        'dev0': DEVICE_CFG, 'dev1': DEVICE_CFG, 'chg0': DEVICE_CHANGE, 'chg1': DEVICE_CHANGE,
+        'start': st.sampled_from(['pair', 'pair', 'secreq']), 'start2': st.sampled_from(['pair', 'pair', 'secreq']),
+        'ans_c': answers(False), 'ans_p': answers(False), 'ans2_c': SECOND_ANSWERS, 'ans2_p': SECOND_ANSWERS,
+        'how': st.sampled_from(['reject', 'answers', 'answers', 'fault']),
+        'how2': st.sampled_from(['ok', 'ok', 'ok', 'ok', 'reject', 'answers']),
+        'fault': st.booleans().flatmap(fault_strategy),
+        'pk': PASSKEYS, 'pk2': PASSKEYS, 'delays_c': DELAYS, 'delays_p': DELAYS,
+        'reconnect': st.sampled_from([True, True, True, False]), 'seed': st.integers(0, 2**32 - 1),
+    }).map(build)
+
+
+OOB_STATE = st.sampled_from(['peer', 'peer', 'peer', 'own', 'bad', 'none'])
+
+
+def oob_case_strategy(sc_c: bool, sc_p: bool):
+    """End-to-end pairings in which at least one side has an OOB configuration: own context only, valid
+    data of the peer, or data of a foreign device; legacy TKs equal or different."""
+
+    def build(d):
+        c = dict(d['c'], sc=sc_c)
+        p = dict(d['p'], sc=sc_p)
+        oob = {'c': d['oc'], 'p': d['op'], 'tk': d['tk']}
+        # valid data about the peer presupposes that the peer has an OOB context
+        if oob['c'] == 'none' and oob['p'] == 'none':
+            oob['c'], oob['p'] = 'peer', 'own'
+        if oob['c'] == 'peer' and oob['p'] == 'none':
+            oob['p'] = 'own'
+        if oob['p'] == 'peer' and oob['c'] == 'none':
+            oob['c'] = 'own'
+        fault = None
+        if d['with_fault']:
+            fault = list(d['fault'])
+            fault[2] = 1  # one Confirm / Random / Public Key / DHKey check per side in OOB pairing
+        return {
+            'kind': 'pair', 'c': c, 'p': p, 'start': d['start'], 'ans_c': d['ans_c'], 'ans_p': d['ans_p'],
+            'pk': d['pk'], 'delays_c': d['delays_c'], 'delays_p': d['delays_p'], 'fault': fault,
+            'prebond': d['prebond'], 'reconnect': d['reconnect'], 'seed': d['seed'], 'oob': oob,
+        }
+
+    side = st.fixed_dictionaries({
+        'io': st.integers(0, 4), 'mitm': st.booleans(), 'bond': st.sampled_from([True, True, False]),
+        'ikd': MASKS, 'rkd': MASKS, 'id': st.just(1),
+    })
+    ans = st.one_of(answers(False), answers(False), answers(False), answers(False), answers(True))
+    return st.fixed_dictionaries({
+        'c': side, 'p': side, 'oc': OOB_STATE, 'op': OOB_STATE, 'tk': st.sampled_from(['same', 'same', 'differ']),
+        'start': st.sampled_from(['pair', 'pair', 'secreq']), 'ans_c': ans, 'ans_p': ans, 'pk': PASSKEYS,
+        'delays_c': DELAYS, 'delays_p': DELAYS, 'with_fault': st.sampled_from([False, False, False, False, True]),
+        'fault': fault_strategy(sc_c and sc_p), 'prebond': st.sampled_from([False, False, True]),
+        'reconnect': st.sampled_from([False, True]), 'seed': st.integers(0, 2**32 - 1),
+    }).map(build)
+
+
+PKBIT_IO = {'i': (DO, KO), 'r': (KO, DO), 'both_input': (KO, KO)}  # roles -> (central IO, peripheral IO)
+PKBIT_BASES = (0, 999999, 123456, 524288, 65535)
+
+
+def pkbit_cases(quick: bool):
+    """Passkey entry in which one typist enters the displayed (or agreed) passkey with exactly bit k
+    flipped: k = 0..19 x {legacy, SC} x the three role assignments of Table 2.8."""
+    n = 0
+    for k in range(20):
+        for sc in (False, True):
+            for ri, roles in enumerate(('i', 'r', 'both_input')):
+                n += 1
+                if quick and (k + ri) % 3:
+                    continue
+                base = PKBIT_BASES[(k + ri) % len(PKBIT_BASES)]
+                if base ^ (1 << k) > 999999:
+                    base %= 475712  # the typed value must remain a six-digit passkey
+                io_c, io_p = PKBIT_IO[roles]
+                side = {'sc': sc, 'mitm': True, 'bond': False, 'ikd': 3, 'rkd': 3, 'id': 1}
+                yes = {'accept': True, 'confirm': True, 'compare': True, 'passkey': 'right', 'think': 0}
+                typist = {'i': 'p', 'r': 'c', 'both_input': 'cp'[k % 2]}[roles]
+                yield {
+                    'kind': 'pair', 'c': dict(side, io=io_c), 'p': dict(side, io=io_p), 'start': 'pair',
+                    'ans_c': dict(yes, passkey=f'flip{k}' if typist == 'c' else 'right'),
+                    'ans_p': dict(yes, passkey=f'flip{k}' if typist == 'p' else 'right'),
+                    'pk': base, 'delays_c': [], 'delays_p': [], 'fault': None, 'prebond': False,
+                    'reconnect': False, 'seed': 7000 + n,
+                }
+
+
 # ---------------------------------------------------------------------------
 def run(ctx) -> None:
     vloop.selftest()
@@ -1200,6 +1588,27 @@ def run(ctx) -> None:
             ctx.hyp(name, one, pair_case_strategy(io_c, io_p, sc, flavour), max_examples=n)
     ctx.extra['determinism_selfchecks'] = len(digests)
 
+    # second pairings: on the same link / after a reconnection in the same / in swapped roles, after a
+    # first pairing aimed at failing / at completing
+    for between in BETWEEN:
+        for first_kind in ('fail', 'ok'):
+            ctx.hyp(f'again/{between}/{first_kind}', lambda case: run_pair_case(ctx, case),
+                    again_case_strategy(between, first_kind), max_examples=ctx.n(14, 9600 // 6))
+
+    # OOB association end to end
+    for sc_c in (False, True):
+        for sc_p in (False, True):
+            ctx.hyp(f'oob/{"s" if sc_c else "l"}{"s" if sc_p else "l"}', lambda case: run_pair_case(ctx, case),
+                    oob_case_strategy(sc_c, sc_p),
+                    max_examples=ctx.n(45, 6400) if sc_c and sc_p else ctx.n(25, 3200))
+
+    # wrong passkeys that differ from the right one in a single bit (enumerated; every shard runs all of them)
+    n_pkbit = 0
+    for case in pkbit_cases(ctx.quick):
+        run_pair_case(ctx, case)
+        n_pkbit += 1
+    ctx.extra['pkbit_cases'] = n_pkbit
+
     for io_c, io_p, sc in strata:
         ctx.floor(f'io:{io_c}x{io_p}:{"sc" if sc else "legacy"}', 1)
     for label, n in (
@@ -1209,6 +1618,24 @@ def run(ctx) -> None:
         ('delayed', 50), ('asymmetric', 100), ('prebond', 20), ('table:passkey_roles:both_input', 1),
     ):
         ctx.floor(label, n)
+    for label, n in (
+        ('again', 60), ('again:same_link', 15), ('again:reconnect_same', 15), ('again:reconnect_swapped', 15),
+        ('again:after_failed', 15), ('again:after_paired', 15),
+        ('again:same_link:after_failed', 4), ('again:same_link:after_paired', 4),
+        ('again:reconnect_same:after_failed', 4), ('again:reconnect_same:after_paired', 4),
+        ('again:reconnect_swapped:after_failed', 4), ('again:reconnect_swapped:after_paired', 4),
+        ('again:outcome:paired', 30), ('again:outcome:failed', 3), ('again:paired_over_bond', 10),
+        ('again:failed_over_bond', 3),
+        ('oob', 80), ('oob:sc', 15), ('oob:legacy', 10), ('oob:sc:one_sided', 5), ('expect:oob_mismatch', 8),
+        ('cause:oob_mismatch', 5), ('oob:flags_as_configured', 60), ('method:oob', 30),
+        ('expect:passkey_one_bit', ctx.pick(36, 110)), ('pkbit:high', ctx.pick(6, 20)),
+        ('pkbit:legacy:i', 4), ('pkbit:legacy:r', 4), ('pkbit:legacy:both_input', 4),
+        ('pkbit:sc:i', 4), ('pkbit:sc:r', 4), ('pkbit:sc:both_input', 4),
+    ):
+        ctx.floor(label, n)
+    if ctx.labels.get('oob:flags_differ_from_configuration', 0):
+        raise HarnessError('C13: the OOB data flags on the wire are not the ones the generator expects from the '
+                           'OOB configurations (config_reference is out of date)')
 
 
 class _Scratch:
